@@ -218,6 +218,9 @@ class Arm:
                 continue
             break
         seg.sign = sign
+        # a local that is bound to a numeric constant stands for that constant
+        if isinstance(v, ast.Name) and _num(self.arr.get(v.id)) is not None:
+            v = self.arr[v.id]
         c = _num(v)
         if c is not None:
             seg.const = c
